@@ -463,10 +463,24 @@ func (c *Client) SyncCollection(ctx context.Context, path string, query *SyncQue
 			return nil, err
 		}
 
+		// The server sends the address data which has been asked for
+		// together with the changes
+		var card vcard.Card
+		var addrData addressDataResp
+		if err := resp.DecodeProp(&addrData); err == nil {
+			card, err = vcard.NewDecoder(bytes.NewReader(addrData.Data)).Decode()
+			if err != nil {
+				return nil, err
+			}
+		} else if !internal.IsNotFound(err) {
+			return nil, err
+		}
+
 		o := AddressObject{
 			Path:    p,
 			ModTime: time.Time(getLastMod.LastModified),
 			ETag:    string(getETag.ETag),
+			Card:    card,
 		}
 		ret.Updated = append(ret.Updated, o)
 	}
